@@ -5,6 +5,8 @@
 //! Stand-ins: `lru` (fixed-slot), `vcoll`, `tracing`.
 //! @needs: mutable signed_announce peers signed_peers tokens
 use super::*;
+#[allow(unused_imports)]
+use crate::verif_env::k as kani;
 use crate::common::kani_h_mutable as mh;
 use crate::common::kani_h_signed_announce as sh;
 use crate::verif_env::{clock, cut, cut_reached, rnd, uf};
@@ -95,28 +97,7 @@ fn any_token() -> Box<[u8]> {
 // C04: mutable put rules
 // ------------------------------------------------------------------------------------------
 
-//@ ob: C04.O1
-//@ rss: 10.5
-//@ time: 994
-//@ tier: thorough
-//@ cap: 2400
-//@ standins: tracing lru vcoll
-//@ also: C03
-//@ desc: one put_mutable against a store holding nothing or one item for the target (seq0): the stored seq never decreases; cas present and != seq0 => 301; seq < seq0 => 302; invalid signature or target != SHA1(k||salt) => 206; bad token => 203; every error leaves the stored item unchanged; otherwise the put's (seq, value) is stored and acknowledged; equal seq (the same item again) is accepted
-//@ bounds: full i64 seq0/seq/cas; cas absent or present; symbolic 1-byte values; symbolic verdict bits (signature valid, target matches) through the contract of from_dht_message (C02.O1); token verdict symbolic (Tokens::validate as an oracle: which tokens validate is C15.O1 / C03.O1-O4); the request's signature bytes equal to the stored item's or different (replayed signature around another value); capacity 1; unwind 26, memcmp 66
-//@ inv: mutable_values maps a target to some item (trivially inductive; pre-state by direct insertion)
-//@ stubs: MutableItem::from_dht_message -> contract (leaf C02.O1a-e); Tokens::validate -> oracle with pre-drawn verdict, call counted; other arms' validators (from_dht_request, validate_immutable, RoutingTable::closest) -> flagged cuts; Instant::now -> symbolic clock; getrandom::fill -> preloaded symbolic bytes
-//@ functions: Server::handle_request (put_mutable arm), Tokens::{should_update,validate}, LruCache get/put (stand-in)
-#[kani::proof]
-#[kani::stub(crate::common::mutable::MutableItem::from_dht_message, mh::from_dht_message_contract)]
-#[kani::stub(crate::common::signed_announce::SignedAnnounce::from_dht_request, sh::from_dht_cut)]
-#[kani::stub(crate::common::immutable::validate_immutable, vi_cut)]
-#[kani::stub(crate::common::routing_table::RoutingTable::closest, closest_cut)]
-#[kani::stub(crate::core::server::tokens::Tokens::validate, validate_oracle)]
-#[kani::stub(std::time::Instant::now, clock::now)]
-#[kani::stub(getrandom::fill, rnd::fill)]
-#[kani::unwind(26)]
-fn c04_o1_put_mutable_rules() {
+fn put_mutable_rules(fix_prev: Option<bool>, fix_cas: Option<bool>) {
     clock::set(0);
     let mut server = small_server(1, true);
     let rt = RoutingTable::new(Id::from(ME));
@@ -125,14 +106,14 @@ fn c04_o1_put_mutable_rules() {
     unsafe { TOKEN_VERDICT.v = token_ok };
     let token: [u8; 4] = kani::any();
     let target = Id::from(T1);
-    let has_prev: bool = kani::any();
+    let has_prev: bool = match fix_prev { Some(b) => b, None => kani::any() };
     let seq0: i64 = kani::any();
     let val0: u8 = kani::any();
     if has_prev {
         server.mutable_values.put(target, MutableItem::kani_build(target, [1; 32], [2; 64], Box::new([val0]), seq0, None));
     }
     let seq: i64 = kani::any();
-    let cas: Option<i64> = kani::any();
+    let cas: Option<i64> = match fix_cas { Some(true) => Some(kani::any()), Some(false) => None, None => kani::any() };
     let val: u8 = kani::any();
     let sig_valid: bool = kani::any();
     let target_ok: bool = kani::any();
@@ -189,17 +170,115 @@ fn c04_o1_put_mutable_rules() {
         assert!(token_ok && sig_valid && target_ok, "C03.O2 mutable item stored only with valid token, signature and target");
     }
     assert!(!cut_reached(), "CUT: another arm or random bytes reached");
-    kani::cover!(code == Some(301));
-    kani::cover!(code == Some(302));
+    // (instances with a fixed shape make some witnesses inapplicable: trivially true there)
+    let (p_ok, np_ok, c_ok, nc_ok) = (fix_prev != Some(false), fix_prev != Some(true), fix_cas != Some(false), fix_cas != Some(true));
+    kani::cover!(!(p_ok && c_ok) || code == Some(301));
+    kani::cover!(!(p_ok && nc_ok) || (code == Some(302) && cas.is_none()));
+    kani::cover!(!(p_ok && c_ok) || (code == Some(302) && cas.is_some()));
     kani::cover!(code == Some(206));
     kani::cover!(code == Some(203));
-    kani::cover!(code.is_none() && has_prev && seq == seq0);
-    kani::cover!(code.is_none() && has_prev && seq > seq0 && cas == Some(seq0));
-    kani::cover!(code.is_none() && !has_prev && cas.is_some());
-    kani::cover!(code == Some(206) && has_prev && replay_sig && seq == seq0 && val != val0);
+    kani::cover!(!p_ok || (code.is_none() && has_prev && seq == seq0));
+    kani::cover!(!(p_ok && c_ok) || (code.is_none() && has_prev && seq > seq0 && cas == Some(seq0)));
+    kani::cover!(!(np_ok && c_ok) || (code.is_none() && !has_prev && cas.is_some()));
+    kani::cover!(!p_ok || (code == Some(206) && has_prev && replay_sig && seq == seq0 && val != val0));
     std::mem::forget(reply);
     std::mem::forget(server);
     std::mem::forget(rt);
+}
+
+
+//@ ob: C04.O1
+//@ rss: 10.5
+//@ time: 994
+//@ tier: thorough
+//@ cap: 2400
+//@ standins: tracing lru vcoll
+//@ also: C03
+//@ desc: one put_mutable against a store holding nothing or one item for the target (seq0): the stored seq never decreases; cas present and != seq0 => 301; seq < seq0 => 302; invalid signature or target != SHA1(k||salt) => 206; bad token => 203; every error leaves the stored item unchanged; otherwise the put's (seq, value) is stored and acknowledged; equal seq (the same item again) is accepted
+//@ bounds: full i64 seq0/seq/cas; cas absent or present; symbolic 1-byte values; symbolic verdict bits (signature valid, target matches) through the contract of from_dht_message (C02.O1); token verdict symbolic (Tokens::validate as an oracle: which tokens validate is C15.O1 / C03.O1-O4); the request's signature bytes equal to the stored item's or different (replayed signature around another value); capacity 1; unwind 26, memcmp 66
+//@ inv: mutable_values maps a target to some item (trivially inductive; pre-state by direct insertion)
+//@ stubs: MutableItem::from_dht_message -> contract (leaf C02.O1a-e); Tokens::validate -> oracle with pre-drawn verdict, call counted; other arms' validators (from_dht_request, validate_immutable, RoutingTable::closest) -> flagged cuts; Instant::now -> symbolic clock; getrandom::fill -> preloaded symbolic bytes
+//@ functions: Server::handle_request (put_mutable arm), Tokens::{should_update,validate}, LruCache get/put (stand-in)
+#[kani::proof]
+#[kani::stub(crate::common::mutable::MutableItem::from_dht_message, mh::from_dht_message_contract)]
+#[kani::stub(crate::common::signed_announce::SignedAnnounce::from_dht_request, sh::from_dht_cut)]
+#[kani::stub(crate::common::immutable::validate_immutable, vi_cut)]
+#[kani::stub(crate::common::routing_table::RoutingTable::closest, closest_cut)]
+#[kani::stub(crate::core::server::tokens::Tokens::validate, validate_oracle)]
+#[kani::stub(std::time::Instant::now, clock::now)]
+#[kani::stub(getrandom::fill, rnd::fill)]
+#[kani::unwind(26)]
+fn c04_o1_put_mutable_rules() {
+    put_mutable_rules(None, None);
+}
+
+//@ ob: C04.O1p
+//@ tier: thorough
+//@ cap: 2400
+//@ standins: tracing lru vcoll
+//@ also: C03
+//@ desc: instance of C04.O1 with an item stored and a cas on the request: cas != stored seq => 301 (also when the put's seq is lower or equal), cas = stored seq and seq lower => 302, never a roll-back; all other rows of C04.O1
+//@ bounds: as C04.O1 with has_prev = true, cas = Some(symbolic i64)
+//@ inv: mutable_values maps a target to some item (trivially inductive; pre-state by direct insertion)
+//@ stubs: as C04.O1
+//@ functions: Server::handle_request (put_mutable arm), Tokens::{should_update,validate}, LruCache get/put (stand-in)
+#[kani::proof]
+#[kani::stub(crate::common::mutable::MutableItem::from_dht_message, mh::from_dht_message_contract)]
+#[kani::stub(crate::common::signed_announce::SignedAnnounce::from_dht_request, sh::from_dht_cut)]
+#[kani::stub(crate::common::immutable::validate_immutable, vi_cut)]
+#[kani::stub(crate::common::routing_table::RoutingTable::closest, closest_cut)]
+#[kani::stub(crate::core::server::tokens::Tokens::validate, validate_oracle)]
+#[kani::stub(std::time::Instant::now, clock::now)]
+#[kani::stub(getrandom::fill, rnd::fill)]
+#[kani::unwind(26)]
+fn c04_o1p_put_mutable_prev_cas() {
+    put_mutable_rules(Some(true), Some(true));
+}
+
+//@ ob: C04.O1q
+//@ tier: thorough
+//@ cap: 2400
+//@ standins: tracing lru vcoll
+//@ also: C03
+//@ desc: instance of C04.O1 with an item stored and no cas on the request
+//@ bounds: as C04.O1 with has_prev = true, cas = None
+//@ inv: mutable_values maps a target to some item (trivially inductive; pre-state by direct insertion)
+//@ stubs: as C04.O1
+//@ functions: Server::handle_request (put_mutable arm), Tokens::{should_update,validate}, LruCache get/put (stand-in)
+#[kani::proof]
+#[kani::stub(crate::common::mutable::MutableItem::from_dht_message, mh::from_dht_message_contract)]
+#[kani::stub(crate::common::signed_announce::SignedAnnounce::from_dht_request, sh::from_dht_cut)]
+#[kani::stub(crate::common::immutable::validate_immutable, vi_cut)]
+#[kani::stub(crate::common::routing_table::RoutingTable::closest, closest_cut)]
+#[kani::stub(crate::core::server::tokens::Tokens::validate, validate_oracle)]
+#[kani::stub(std::time::Instant::now, clock::now)]
+#[kani::stub(getrandom::fill, rnd::fill)]
+#[kani::unwind(26)]
+fn c04_o1q_put_mutable_prev_nocas() {
+    put_mutable_rules(Some(true), Some(false));
+}
+
+//@ ob: C04.O1r
+//@ tier: thorough
+//@ cap: 2400
+//@ standins: tracing lru vcoll
+//@ also: C03
+//@ desc: instance of C04.O1 with nothing stored for the target (cas absent or any value: accepted when otherwise valid)
+//@ bounds: as C04.O1 with has_prev = false
+//@ inv: mutable_values maps a target to some item (trivially inductive; pre-state by direct insertion)
+//@ stubs: as C04.O1
+//@ functions: Server::handle_request (put_mutable arm), Tokens::{should_update,validate}, LruCache get/put (stand-in)
+#[kani::proof]
+#[kani::stub(crate::common::mutable::MutableItem::from_dht_message, mh::from_dht_message_contract)]
+#[kani::stub(crate::common::signed_announce::SignedAnnounce::from_dht_request, sh::from_dht_cut)]
+#[kani::stub(crate::common::immutable::validate_immutable, vi_cut)]
+#[kani::stub(crate::common::routing_table::RoutingTable::closest, closest_cut)]
+#[kani::stub(crate::core::server::tokens::Tokens::validate, validate_oracle)]
+#[kani::stub(std::time::Instant::now, clock::now)]
+#[kani::stub(getrandom::fill, rnd::fill)]
+#[kani::unwind(26)]
+fn c04_o1r_put_mutable_empty() {
+    put_mutable_rules(Some(false), None);
 }
 
 //@ ob: C04.O5
